@@ -60,9 +60,23 @@ fn make_tx(phase: bool, fixed: bool, value: u16, initial: u8) -> (CPUEmulator, V
     let mut cpu = CPUEmulator::new(0, 249);
     let mut tx = new_tx(1);
     configure(&mut cpu, &mut tx, phase, fixed, value);
+    // every third device (completion-steps mode) has in addition REFUSED a reconfiguration: an STM of division 100 is
+    // running, then a strict Silencer with 60000 steps is sent and answered with InvalidSilencerSettings. A refused
+    // request changes nothing: the filters must run with the configured steps.
+    let k = MADE.fetch_add(1, std::sync::atomic::Ordering::Relaxed);
+    if !fixed && k % 3 == 2 {
+        let g = create_geometry(1);
+        let pts: Vec<ControlPoints<1>> = (0..2).map(|_| ControlPoints::from(Point3::new(0., 0., 150.))).collect();
+        send(&mut cpu, FociSTM::new(pts, SamplingConfig::new(NonZeroU16::new(100).unwrap())), &g, &mut tx).unwrap();
+        let big = NonZeroU16::new(60000).unwrap();
+        let r = send(&mut cpu, Silencer::new(FixedCompletionSteps { intensity: big, phase: big, strict_mode: true }), &g, &mut tx);
+        assert!(r.is_err(), "the strict 60000-step request must be refused while an STM of division 100 runs");
+    }
     let emu = if phase { Emu::P(cpu.fpga().silencer_emulator_phase(initial)) } else { Emu::I(cpu.fpga().silencer_emulator_intensity(initial)) };
     (cpu, tx, emu)
 }
+
+static MADE: std::sync::atomic::AtomicU64 = std::sync::atomic::AtomicU64::new(0);
 
 fn gcd(a: u32, b: u32) -> u32 {
     if b == 0 { a } else { gcd(b, a % b) }
